@@ -61,6 +61,17 @@ let () =
       if List.length zs <> nk + nv then "BADCASE"
       else show_sort (srt_sliceby_nolimit (srt_less_mode (z_of_string mode)) (take nk zs) (take nv (drop nk zs)))
     | _ -> "BADCASE");
+  (* c15P mode lo hi k_1..k_n : one doPivot call of the model on [lo,hi) (model only; used to
+     test the unproved hypothesis srt_partition_ok on many inputs) *)
+  Registry.register "c15P" (fun toks -> match toks with
+    | mode :: lo :: hi :: rest ->
+      let ks = List.map z_of_string rest in
+      (match srt_do_pivot (srt_less_mode (z_of_string mode)) (z_of_string lo) (z_of_string hi) (srt_init ks ks) with
+       | SOk ((mlo, mhi), s) ->
+         Printf.sprintf "m=%s,%s k=%s v=%s" (string_of_z mlo) (string_of_z mhi)
+           (zlist_to_string (st_keys s)) (zlist_to_string (st_vals s))
+       | SPanic -> "PANIC" | SNoFuel -> "NOFUEL")
+    | _ -> "BADCASE");
   (* c15K n limit : killer key sequence built against the model *)
   Registry.register "c15K" (fun toks -> match toks with
     | [n; l] -> String.concat " " (List.map string_of_int (killer (int_of_string n) (l = "1")))
